@@ -4,6 +4,21 @@ from __future__ import annotations
 from .engine import OutsideSubset
 
 
+class SleepV:
+    __slots__ = ("delay",)
+
+    def __init__(self, delay):
+        self.delay = delay
+
+
+class GatherV:
+    __slots__ = ("items", "return_exceptions")
+
+    def __init__(self, items, return_exceptions):
+        self.items = items
+        self.return_exceptions = return_exceptions
+
+
 def loop_getattr(ghost, obj, name, node):
     return NotImplemented
 
@@ -24,6 +39,10 @@ def asyncio_call(ghost, name, args, kwargs, node):
         if ghost.loop is None:
             raise OutsideSubset("asyncio.create_task() but the harness installed no event-loop model")
         return I.call(I.getattr(ghost.loop, "create_task", node), [args[0]], {}, node)
+    if name == "sleep":
+        return SleepV(args[0])
+    if name == "gather":
+        return GatherV(list(args), bool(kwargs.get("return_exceptions", False)))
     if name == "Event":
         mod = I.load_module("contracts.looplib")
         return I.call(mod.ns["Event"], [], {}, node)
@@ -46,5 +65,33 @@ def await_value(ghost, v, node):
         if v.started:
             I.throw("RuntimeError", "cannot reuse already awaited coroutine", node=node)
         v.started = True
-        return I.run_function(v.func, v.args, v.kwargs, node)
+        added = [i for i in v.body_ids if i not in I.body_mode]
+        I.body_mode.update(added)
+        try:
+            return I.run_function(v.func, v.args, v.kwargs, node)
+        finally:
+            I.body_mode.difference_update(added)
+    if isinstance(v, SleepV):
+        return ghost.on_sleep(v.delay, node)
+    if isinstance(v, GatherV):
+        # each awaitable runs exactly once; the order among them is unspecified by asyncio,
+        # here: in argument order, to completion one after the other
+        from .interp import RaiseSig
+        from .values import ListV
+
+        out = []
+        for it in v.items:
+            try:
+                out.append(await_value(ghost, it, node))
+            except RaiseSig as r:
+                if not v.return_exceptions:
+                    raise
+                out.append(r.exc)
+        return ListV(out)
+    from .objects import ObjV, BoundMethod
+
+    if isinstance(v, ObjV):
+        f, _ = v.cls.lookup("__await_model__")
+        if f is not None:
+            return I.call(BoundMethod(f, v), [], {}, node)
     raise OutsideSubset(f"await of {type(v).__name__} at {I.where(node)}")
